@@ -520,8 +520,11 @@ class PrimaryOrSupplementaryVD:
         else:
             # We didn't find a block this would fit in; add one.
             block = rockridge.RockRidgeContinuationBlock(0, self.log_block_size)
-            self.rr_ce_blocks.append(block)
             offset = block.add_entry(length)
+            if offset is None:
+                # A continuation area has to fit into one logical block.
+                raise pycdlibexception.PyCdlibInvalidInput('The Rock Ridge name or symlink target is too long to fit into a continuation area')
+            self.rr_ce_blocks.append(block)
             added_block = True
 
         return (added_block, block, offset)
